@@ -39,7 +39,7 @@ impl Prop for C02 {
         "C02"
     }
     fn rule(&self) -> String {
-        "same histories as C01 (all 96 specs; exhaustive block of length <= 3, random block of length <= 20/40). After every second step (quick) / every step (thorough) and at the end, one coherence function compares every read API with the model's node list and edge multiset: get_edge/get_edges for every ordered pair of the 6-name universe plus an absent name, per-node all/in/out edge lists, node-set variants for every subset (64+) of the universe at the end of the history, successor/predecessor/neighbour queries and maps, has_node(s), index lookups, BFS reachability against the closure of the model edges, and (hook) the name-keyed and position-keyed stores list by list. Non-trivial = >= 2 stored edges, >= 1 adjacent pair whose name order is the reverse of its insertion order, and >= 1 query with an absent name; distinct = distinct serialised history.".into()
+        "same histories as C01 (all 96 specs; exhaustive block of length <= 3, random block of length <= 20/40). After every second step (quick) / every step (thorough) and at the end, one coherence function compares every read API with the model's node list and edge multiset: get_edge/get_edges for every ordered pair of the 6-name universe plus an absent name, per-node all/in/out edge lists, node-set variants for every subset (64+) of the universe at the end of the history, successor/predecessor/neighbour queries and maps, has_node(s), index lookups, BFS reachability against the closure of the model edges, and (hook) the name-keyed and position-keyed stores list by list. Every edge returned by any view is compared with the model's edge including its attributes (a unique tag on two edges in three), so that all views must return the same stored object, not merely equal endpoints and weight. Non-trivial = >= 2 stored edges, >= 1 adjacent pair whose name order is the reverse of its insertion order, and >= 1 query with an absent name; distinct = distinct serialised history.".into()
     }
     fn assumptions(&self) -> Vec<String> {
         vec![
